@@ -39,7 +39,13 @@ func runC01(c *core.Ctx) {
 	for _, s := range sibsMST {
 		for _, typ := range []string{"writeCallback", "writeQueueCallback"} {
 			if f := r.fn("c01.spec-follows-metadata", s.pkg, "(*"+typ+").Rev"); f != nil {
-				r.pairedLoopUpdate("c01.spec-follows-metadata", f, "metadata", "spec",
+				r.pairedLoopUpdateSel("c01.spec-follows-metadata", f, "the metadata", "the spec",
+					func(p *ssa.Phi) bool {
+						return strings.HasSuffix(p.Type().String(), "common/v1.Metadata") && flowsFromCallSuffix(p, ").GetMetadata", 0)
+					},
+					func(p *ssa.Phi) bool {
+						return strings.Contains(p.Type().String(), "Spec") && (flowsFromCallSuffix(p, ").GetDataPointSpec", 0) || flowsFromCallSuffix(p, ").GetTagFamilySpec", 0) || flowsFromCallSuffix(p, ").GetTagSpec", 0))
+					},
 					"the point of the new resource is decoded through the previous resource's spec (tag and field positions of another schema): what is stored and indexed is not what was written")
 			}
 		}
